@@ -101,6 +101,11 @@ def enumerate_cases(tier, seed):
             if not isinstance(alpha, str) and unr != 5:
               continue
             out.append(dict(cls="ternary", rank=rank, fam=fam, alpha=alpha, threshold=thr, unrolls=unr))
+  # the stochastic classes in the INFERENCE phase (deterministic there): same clauses as binary / ternary
+  for c in list(out):
+    if c.get("scale_axis") is None and c.get("eps") is None and c.get("min_po2") is None and c.get("max_po2") is None \
+        and not c.get("use_01") and c.get("threshold") is None and c.get("unrolls", 5) == 5:
+      out.append(dict(c, stochastic=True))
   # history on the process-wide image data format: a quantizer is used while the format is channels_first, the format is
   # switched back, and only then the quantizer under test is built and used - it must follow the CURRENT format
   for c in list(out):
@@ -122,6 +127,8 @@ def enumerate_cases(tier, seed):
 
 def make(cfg):
   from qkeras import quantizers as Q  # pylint: disable=import-outside-toplevel
+  if cfg.get("stochastic"):
+    return Q.stochastic_binary(alpha=cfg["alpha"]) if cfg["cls"] == "binary" else Q.stochastic_ternary(alpha=cfg["alpha"])
   if cfg["cls"] == "binary":
     return Q.binary(use_01=cfg["use_01"], alpha=cfg["alpha"], scale_axis=cfg["scale_axis"],
                     elements_per_scale=cfg["eps"], min_po2_exponent=cfg["min_po2"],
@@ -190,7 +197,7 @@ def run_case(cfg):
   def bad(clause, what, **detail):
     tag = ("auto" if auto else "const")
     if len(viol) < 8:
-      viol.append({"key": "%s:%s:%s" % (cfg["cls"], clause, tag),
+      viol.append({"key": "%s%s:%s:%s" % ("stochastic_" if cfg.get("stochastic") else "", cfg["cls"], clause, tag),
                    "what": "%s %s: %s" % (cfg["cls"], clause, what), "detail": dict(cfg=cfg, **detail)})
 
   evals = 0
